@@ -7,7 +7,7 @@ open HdVerif HdVerif.Gen HdVerif.SegRead
 
 section order1
 variable (st : Stored) (wf : WfStack st) (segs : List Nat) (relabel : Bool) (hnd : segs.Nodup) (k : Nat)
-  (hsub : ∀ s ∈ segs, s ∈ st.segNums) (hbin : AllBinary st) (d : DType)
+  (hsub : ∀ s ∈ segs, s ∈ st.segNums) (hbin : ∀ f ∈ st.frames, f.key = k → f.seg ∈ segs → FrameBinary st.type st.mfv f) (d : DType)
   (hcap : ∀ s ∈ segs, outVal segs relabel s ≤ d.maxVal)
   (rows : List (SFrame × Nat))
   (hmem : ∀ r, r ∈ rows ↔ r ∈ joinRows st.frames (chanTable segs (remapValues segs true relabel)) k)
@@ -17,8 +17,8 @@ include wf hnd hsub hbin hcap hmem hpw
 theorem rows_frameBinary' :
     ∀ r ∈ rows, FrameBinary st.type st.mfv r.1 := by
   intro r hr
-  have := (row_facts st wf segs relabel hnd k r ((hmem r).mp hr)).1
-  exact hbin r.1 this
+  obtain ⟨h1, h2, h3, _⟩ := row_facts st wf segs relabel hnd k r ((hmem r).mp hr)
+  exact hbin r.1 h1 h2 h3
 
 theorem rows_val_le' :
     ∀ r ∈ rows, (r.2 : Int) ≤ d.maxVal := by
@@ -103,7 +103,7 @@ end order1
 
 section order2
 variable (st : Stored) (wf : WfStack st) (segs : List Nat) (relabel : Bool) (hnd : segs.Nodup) (k : Nat)
-  (hsub : ∀ s ∈ segs, s ∈ st.segNums) (hbin : AllBinary st) (d : DType)
+  (hsub : ∀ s ∈ segs, s ∈ st.segNums) (hbin : ∀ f ∈ st.frames, f.key = k → f.seg ∈ segs → FrameBinary st.type st.mfv f) (d : DType)
   (hcap : ∀ s ∈ segs, outVal segs relabel s ≤ d.maxVal)
   (rows : List (SFrame × Nat))
   (hmem : ∀ r, r ∈ rows ↔ r ∈ joinRows st.frames (chanTable segs (remapValues segs true relabel)) k)
@@ -159,7 +159,7 @@ theorem isCombinedValue_unique (st : Stored) (segs : List Nat) (relabel : Bool) 
 /-- **The order of the rows inside one output frame does not matter**: the loop gives the same result (the same
 array, or the same refusal) for every permutation of the rows the join delivers. -/
 theorem combineRow_perm (st : Stored) (wf : WfStack st) (segs : List Nat) (relabel : Bool) (hnd : segs.Nodup) (k : Nat)
-    (hsub : ∀ s ∈ segs, s ∈ st.segNums) (hbin : AllBinary st) (d : DType)
+    (hsub : ∀ s ∈ segs, s ∈ st.segNums) (hbin : ∀ f ∈ st.frames, f.key = k → f.seg ∈ segs → FrameBinary st.type st.mfv f) (d : DType)
     (hcap : ∀ s ∈ segs, outVal segs relabel s ≤ d.maxVal) (skip : Bool) (rows' : List (SFrame × Nat))
     (hperm : rows'.Perm (joinRows st.frames (chanTable segs (remapValues segs true relabel)) k)) :
     combineRow st.type st.mfv skip d st.npix rows' =
